@@ -7,6 +7,8 @@ from .idioms import parse_selection, Sel, const_int, parse_pred
 
 
 class Reader:
+    MODEL = None     # set by the rule modules: lets the reader look into one-expression helpers of System
+
     def __init__(self, frame, env=None, special=None):
         self.frame = frame
         self.env = dict(env or {})        # name -> descriptor
@@ -29,6 +31,18 @@ class Reader:
             return ("sel",) + sel.key()[1:]
         if isinstance(n, ast.Call):
             fn = ast.unparse(n.func)
+            # self.<helper>(..) whose body is a single `return <expr>`: read the expression with the arguments bound
+            if fn.startswith("self.") and fn[5:].isidentifier() and Reader.MODEL is not None and not n.keywords:
+                h = Reader.MODEL.own_method("System", fn[5:])
+                if h is not None:
+                    body = [s for s in h.body if not (isinstance(s, ast.Expr) and isinstance(s.value, ast.Constant))]
+                    params = [a.arg for a in h.args.args][1:]
+                    if len(body) == 1 and isinstance(body[0], ast.Return) and body[0].value is not None and len(params) == len(n.args) \
+                            and not any(isinstance(c, ast.Call) and ast.unparse(c.func).startswith("self.") for c in ast.walk(body[0].value)):
+                        sub_ = Reader(self.frame, env=dict(self.env), special=self.special)
+                        for p_, a_ in zip(params, n.args):
+                            sub_.env[p_] = self.desc(a_)
+                        return sub_.desc(body[0].value)
             if fn == "_get_eff" and len(n.args) >= 2:
                 return ("eff", self.desc(n.args[0]), self.desc(n.args[1]))
             if fn.endswith("._calc_energy") and len(n.args) == 2:
@@ -50,6 +64,9 @@ class Reader:
             return ("call", fn) + tuple(self.desc(a) for a in n.args) + tuple((k.arg, self.desc(k.value)) for k in n.keywords)
         if isinstance(n, ast.BinOp):
             op = type(n.op).__name__
+            # set(..) - {""}: the set with the empty text removed (whether or not it was present)
+            if op == "Sub" and isinstance(n.right, ast.Set) and len(n.right.elts) == 1 and isinstance(n.right.elts[0], ast.Constant):
+                return ("removed", self.desc(n.left), ("const", n.right.elts[0].value), ("always",))
             a, b = self.desc(n.left), self.desc(n.right)
             if op in ("Add", "Mult"):
                 a, b = sorted([a, b], key=repr)
@@ -73,6 +90,8 @@ class Reader:
         """canonical text of a value inside a selection predicate; a name bound to a predicate resolves to its conditions"""
         if isinstance(node, ast.Name) and node.id in self.env and isinstance(self.env[node.id], tuple) and self.env[node.id][:1] == ("pred",):
             return self.env[node.id][1]
+        if isinstance(node, ast.Name) and node.id in self.env and isinstance(self.env[node.id], tuple) and self.env[node.id][:1] == ("fframe",):
+            return self.env[node.id]
         d = self.desc(node)
         return d
 
@@ -85,6 +104,13 @@ class Reader:
         if isinstance(s, ast.Assign) and len(s.targets) == 1:
             t = s.targets[0]
             if isinstance(t, ast.Name):
+                # a filtered frame bound to a name:  rows = df[filt]
+                if isinstance(s.value, ast.Subscript) and isinstance(s.value.value, ast.Name) and s.value.value.id == self.frame \
+                        and not isinstance(s.value.slice, ast.Constant):
+                    fp = parse_pred(s.value.slice, self.frame, self.res)
+                    if fp is not None:
+                        self.env[t.id] = ("fframe", frozenset(fp))
+                        return
                 # a predicate bound to a name:  filt = (df["A"] == x) & (...)
                 pr = parse_pred(s.value, self.frame, self.res)
                 if pr is not None:
@@ -127,6 +153,15 @@ class Reader:
             pb = parse_pred(s.orelse[0].value, self.frame, self.res)
             if pa is not None and pb is not None:
                 self.env[s.body[0].targets[0].id] = ("pred", frozenset({("__ite__", ast.unparse(s.test), tuple(sorted(pa, key=repr)), tuple(sorted(pb, key=repr)))}))
+                return
+        # `if T: filt = filt & (...)` without else: the predicate is refined under T
+        if isinstance(s, ast.If) and len(s.body) == 1 and not s.orelse and isinstance(s.body[0], ast.Assign) and isinstance(s.body[0].targets[0], ast.Name) \
+                and isinstance(self.env.get(s.body[0].targets[0].id), tuple) and self.env[s.body[0].targets[0].id][:1] == ("pred",):
+            nm = s.body[0].targets[0].id
+            pa = parse_pred(s.body[0].value, self.frame, self.res)
+            pb = self.env[nm][1]
+            if pa is not None and not any(isinstance(x, tuple) and x and x[0] == "__ite__" for x in pb):
+                self.env[nm] = ("pred", frozenset({("__ite__", ast.unparse(s.test), tuple(sorted(pa, key=repr)), tuple(sorted(pb, key=repr)))}))
                 return
         if isinstance(s, ast.If):
             c = ast.unparse(s.test)
